@@ -43,21 +43,18 @@ static void cell(const pkcfg *c, const char *op, int tight, uint32_t n, uint32_t
     fill(g.p, total, prior);
     uint8_t *arr = g.p + base;
     int f = 0;
-    if (strcmp(op, "Set")) { /* Incr / Half start from a known element value */
-        int pf = GUARDED(c->set(arr, i, preset));
-        if (pf) {
-            head("Pk", c, "Set", tight ? "tight" : "iso");
-            ev_int("base", (long long)base);
-            ev_int("n", n);
-            ev_int("i", i);
-            put_val4("val", preset);
-            ev_int("fault", pf);
-            ev_bytes("pre", g.p, 0);
-            ev_bytes("post", g.p, 0);
-            put_val4("got", 0);
-            ev_end();
-            gb_free(&g);
-            return;
+    if (strcmp(op, "Set")) {
+        /* Incr / Half start from a known element value, stored by the harness
+         * itself bit by bit (flat LSB-first layout), not by the library: a
+         * defect in Set must not turn into an ill-formed Incr scenario */
+        for (int k = 0; k < c->bits; k++) {
+            size_t g = (size_t)i * (size_t)c->bits + (size_t)k;
+            uint8_t m = (uint8_t)(1u << (g % 8));
+            if ((preset >> k) & 1) {
+                arr[g / 8] |= m;
+            } else {
+                arr[g / 8] &= (uint8_t)~m;
+            }
         }
     }
     uint8_t *pre = malloc(total);
